@@ -121,3 +121,6 @@ Proof.
   assert (H0 : pulled_ok (N.of_nat (length items)) (p_init_state dbg rl items)) by reflexivity.
   destruct (post_returns _ _ _ _ (Hg _ fuel) _ H0 _ _ E) as [Hok _]. cbn in Hok. unfold pulled_ok in Hok. lia.
 Qed.
+
+Lemma document_CP n fuel : specR (CP n) (g_document fuel).
+Proof. apply gg_document; [apply CP_ok|apply (a_assert _ (CP_atoms n))]. Qed.
